@@ -24,27 +24,61 @@ def traced(f, *a):
         return f(*a)
 
 
-def free_aabb(sh):
+def free_args(sh):
     k = sh["kind"]
     if k == "sphere":
-        return containment.sphere_aabb(arr(sh["c"]), float(sh["r"]))
+        return containment.sphere_aabb, [arr(sh["c"]), float(sh["r"])]
     if k == "box":
-        return containment.box_aabb(pose4(sh["R"], sh["t"]), arr(sh["size"]))
+        return containment.box_aabb, [pose4(sh["R"], sh["t"]), arr(sh["size"])]
     if k == "cylinder":
-        return containment.cylinder_aabb(pose4(sh["R"], sh["t"]), float(sh["r"]), float(sh["l"]))
+        return containment.cylinder_aabb, [pose4(sh["R"], sh["t"]), float(sh["r"]), float(sh["l"])]
     if k == "capsule":
-        return containment.capsule_aabb(pose4(sh["R"], sh["t"]), float(sh["r"]), float(sh["h"]))
+        return containment.capsule_aabb, [pose4(sh["R"], sh["t"]), float(sh["r"]), float(sh["h"])]
     if k == "ellipsoid":
-        return containment.ellipsoid_aabb(pose4(sh["R"], sh["t"]), arr(sh["radii"]))
+        return containment.ellipsoid_aabb, [pose4(sh["R"], sh["t"]), arr(sh["radii"])]
     if k == "cone":
-        return containment.cone_aabb(pose4(sh["R"], sh["t"]), float(sh["r"]), float(sh["h"]))
+        return containment.cone_aabb, [pose4(sh["R"], sh["t"]), float(sh["r"]), float(sh["h"])]
     if k == "disk":
-        return containment.disk_aabb(arr(sh["c"]), float(sh["r"]), arr(sh["n"]))
+        return containment.disk_aabb, [arr(sh["c"]), float(sh["r"]), arr(sh["n"])]
     if k == "ellipse":
-        return containment.ellipse_aabb(arr(sh["c"]), arr([sh["a0"], sh["a1"]]), arr([sh["r0"], sh["r1"]]))
+        return containment.ellipse_aabb, [arr(sh["c"]), arr([sh["a0"], sh["a1"]]), arr([sh["r0"], sh["r1"]])]
     if k == "hull":
-        return containment.axis_aligned_bounding_box(arr(sh["vs"]))
-    return None
+        return containment.axis_aligned_bounding_box, [arr(sh["vs"])]
+    return None, None
+
+
+def free_aabb(sh):
+    f, args = free_args(sh)
+    if f is None:
+        return None
+    copies = [a.copy() if isinstance(a, np.ndarray) else a for a in args]
+    res = f(*args)
+    if any(isinstance(a, np.ndarray) and not np.array_equal(a, b, equal_nan=True) for a, b in zip(args, copies)):
+        raise AssertionError("the free *_aabb function modified its argument arrays")
+    return res
+
+
+def free_inplace_history(sh, sh2):
+    """call, overwrite the SAME argument arrays with another shape of the kind, call again, compare with
+    a call on fresh arrays"""
+    f, args = free_args(sh)
+    f2, args2 = free_args(sh2)
+    if f is None or f2 is not f:
+        return None
+    f(*args)
+    call = []
+    for a, b in zip(args, args2):
+        if isinstance(a, np.ndarray):
+            if a.shape != np.asarray(b).shape:
+                return None
+            a[...] = b
+            call.append(a)
+        else:
+            call.append(b)
+    got = f(*call)
+    want = f(*free_args(sh2)[1])
+    same = all(np.array_equal(np.asarray(x), np.asarray(y), equal_nan=True) for x, y in zip(got, want))
+    return dict(same=bool(same), got=[fl(x) for x in got], want=[fl(x) for x in want])
 
 
 def run_rigid_body(sh):
@@ -111,6 +145,8 @@ def run_case(case):
         fr = traced(free_aabb, sh)
         if fr is not None:
             out["free"] = [fl(fr[0]), fl(fr[1])]
+        if case.get("shape2") is not None:
+            out["inplace"] = traced(free_inplace_history, sh, case["shape2"])
     except BaseException as e:  # noqa
         out["exc"] = type(e).__name__
         out["exc_msg"] = str(e)[:300]
